@@ -370,8 +370,27 @@ RAW_UNITS = [
      'int other(void) { static int n; return __func__[0] + __func__[1] + n; }\n', {}),
     ('extern int x, y; int *p = &x; int x = 1; int *q = &y; int y; static int s; int t; int t; int t = 4;\nint f(void) { return *p + *q + s + t; }\n',
      {'x': (4, True), 'y': (4, True), 's': (4, False), 't': (4, True), 'p': (8, True)}),
+    # objects declared while their struct/union type is incomplete are tentative definitions all the same (6.9.2p2):
+    # defined once the type is complete (seeded change C09-advb-09-3 dropped them silently)
+    ('struct config cfg; union cell pool; static struct config own; struct config { int a; long b; }; union cell { char c[5]; short s; };\n'
+     'int f(void) { return cfg.a + pool.s + own.a; }\n', {'cfg': (16, True), 'pool': (6, True), 'own': (16, False)}),
+    # a block-scope extern declaration whose file-scope namesake is a typedef name or an enumeration constant (no linkage,
+    # 6.2.2p4: nothing to inherit): accepted, external references
+    ('typedef int handler; enum { limit = 3 }; int f(void) { extern int limit; int handler(int); return limit + handler(1); }\nint g(void) { handler h = limit; return h; }\n', {}),
+    ('static int s; _Thread_local int *c = &s; static _Thread_local int t; extern _Thread_local int t;\nint f(void) { extern _Thread_local int t; return *c + t; }\n', {'c': (8, True), 's': (4, False), 't': (4, False)}),
     # known finding: __func__ used only as an address constant of a static initialiser is referenced but never defined
     ('int f(void) { static const char *p = __func__; return p[0]; }\n', {}, 'func-name-address-constant-undefined'),
+]
+
+# units that must be rejected: the address of a thread-local object is not an address constant (6.6p9: "an object of static
+# storage duration"), whatever the initialised object is (seeded change C09-advb-09-2 emitted `l $t` without `thread`)
+RAW_REJECT = [
+    '_Thread_local int t; int *p = &t;\n',
+    '_Thread_local int t[4]; int *p = &t[1];\n',
+    '_Thread_local int t; int *a[2] = { 0, &t };\n',
+    '_Thread_local int t; int f(void) { static int *p = &t; return *p; }\n',
+    'static _Thread_local int t; struct { int x; int *p; } s = { 1, &t };\n',
+    'extern _Thread_local int t; _Thread_local int *p = &t;\n',
 ]
 
 # ------------------------------------------------------------------------------------------ gcc as second opinion
@@ -872,6 +891,12 @@ def run(ctx):
                     problems.append('%s: %d bytes%s, expected %d bytes%s' % (nm, sz, ' exported' if got[0][0] else '', size, ' exported' if exported else ''))
             if problems:
                 ctx.violation('hand-written linkage unit: ' + '; '.join(problems), src, 'c', key=rkey)
+        for src in RAW_REJECT:
+            rc, out, err = ctx.qbe(src)
+            chk.stats['raw_units'] = chk.stats.get('raw_units', 0) + 1
+            if rc == 0 or 'error' not in err:
+                ctx.violation('the address of a thread-local object is accepted as an address constant (rc=%d): %s'
+                              % (rc, [l for l in out.split('\n') if '$t' in l][:2]), src, 'c', key='thread-local-address-constant')
         # the specification against gcc
         gh = cases['exhaustive<=2'] + cases['regression'] + (cases['block-structure'] if thorough else ctx.rng.sample(cases['block-structure'], 600)) \
             + ctx.rng.sample(list(cases.values())[1], 4000 if thorough else 700) \
